@@ -1,5 +1,7 @@
 package main
 
+import "strings"
+
 // C08 — only live tokens are honoured; revocation and logout take effect everywhere (DESIGN §5 C08).
 
 func init() {
@@ -54,6 +56,11 @@ func init() {
 		{ID: "E1.endsession.legacy-server", Fn: "op.(*LegacyServer).EndSession", P: []string{"s", "ctx", "r"}, Kind: "ret ok", Max: 1,
 			Req: []string{"ok(op.ValidateEndSessionRequest(_, $r.Data, _))", "def($session, op.ValidateEndSessionRequest(_, $r.Data, _), 0)",
 				"ok(_.TerminateSessionFromRequest(_, $session)) || ok(_.TerminateSession(_, $session.UserID, $session.ClientID))"}},
+	}
+	for _, o := range obs {
+		if strings.HasPrefix(o.ID, "E8.access-token-verifier-per-request-issuer") {
+			sharedObs["C15"] = append(sharedObs["C15"], o) // token exchange verifies subject / actor tokens through this verifier
+		}
 	}
 	register(&PropSpec{
 		ID: "C08",
